@@ -51,20 +51,20 @@ Definition top0 : op * list entry :=
    switch during which the on_world_load callback of the entered world raises
    Quit (the loop is in its except clause); a third start that switches again *)
 Definition ex_ok : C14_case :=
-  {| c_nps := [1%nat; 1%nat];
+  {| c_nps := [1%nat; 1%nat]; c_ncs := [1%nat; 1%nat];
      c_ops :=
        [ top0;
          (OStart [fr 8 AOther] EndQuit [],
           [EClock 8 1 0; EProc 1 0%nat 0; EAct OProc AOther 1 0; EEnd RaisedOther 1 0]);
          (OStart [fr 24 ANormal; fr 29 (ASwitch 1 false false true); fr 32 ANormal] EndQuit
                  [(KLoad, AQuit)],
-          [EClock 24 1 0; EProc 1 0%nat 0;
+          [EClock 24 1 0; EProc 1 0%nat 0; ECoro 1 0%nat;
            EClock 29 1 0; EProc 1 0%nat 5; EAct OProc (ASwitch 1 false false true) 1 0;
            ELoad 1 2; EEv 1 (VOut 1 2); EEv 2 (VLoad 1 2);
            EAct (OCallback KLoad true) AQuit 2 1; EEnd (Returned false) 2 1]);
          (OStart [fr 40 ANormal; fr 41 (ASwitch 0 false false true);
                   fr 44 (AQuitLoop QCurrent)] EndQuit [],
-          [EClock 40 2 1; EProc 2 0%nat 0;
+          [EClock 40 2 1; EProc 2 0%nat 0; ECoro 2 0%nat;
            EClock 41 2 1; EProc 2 0%nat 1; EAct OProc (ASwitch 0 false false true) 2 1;
            EEv 2 (VOut 2 1); EEv 1 (VIn 2 1);
            EClock 44 1 0; EProc 1 0%nat 3; EAct OProc (AQuitLoop QCurrent) 1 0; EEv 1 VQuit;
@@ -79,7 +79,7 @@ Proof. vm_compute. auto. Qed.
    start quit_loop's on_quit is delivered to the current world before the
    loop quits *)
 Definition chain_case : C14_case :=
-  {| c_nps := [1%nat; 1%nat; 1%nat];
+  {| c_nps := [1%nat; 1%nat; 1%nat]; c_ncs := [1%nat; 1%nat; 1%nat];
      c_ops :=
        [ top0;
          (OStart [fr 0 (ASwitch 1 false false true); fr 8 ANormal] EndQuit
@@ -88,7 +88,7 @@ Definition chain_case : C14_case :=
            ELoad 1 2; EEv 1 (VOut 1 2); EEv 2 (VLoad 1 2); EEv 2 (VIn 1 2);
            EAct (OCallback KIn true) (ASwitch 2 false false false) 2 1;
            ELoad 2 3; EEv 2 (VOut 2 3); EEv 3 (VLoad 2 3); EEv 3 (VIn 2 3);
-           EClock 8 3 2; EProc 3 0%nat 8; EClockEnd EndQuit 3 2; EEnd (Returned false) 3 2]);
+           EClock 8 3 2; EProc 3 0%nat 8; ECoro 3 0%nat; EClockEnd EndQuit 3 2; EEnd (Returned false) 3 2]);
          (OStart [fr 16 (AQuitLoop QDefault)] EndQuit [],
           [EClock 16 3 2; EProc 3 0%nat 0; EAct OProc (AQuitLoop QDefault) 3 2; EEv 3 VQuit;
            EEnd (Returned false) 3 2]) ] |}.
@@ -107,13 +107,13 @@ Proof. vm_compute. reflexivity. Qed.
    rest of the frame still runs the processors of world 1, the next iteration
    processes world 2 with the exact delta *)
 Definition direct_case : C14_case :=
-  {| c_nps := [2%nat; 1%nat];
+  {| c_nps := [2%nat; 1%nat]; c_ncs := [1%nat; 1%nat];
      c_ops :=
        [ top0;
          (OStart [fr 0 (ADirect 1 false false); fr 5 ANormal] EndQuit [],
           [EClock 0 1 0; EProc 1 0%nat 0; EAct OProc (ADirect 1 false false) 1 0;
-           ELoad 1 2; EEv 2 (VLoad 1 2); EProc 1 1%nat 0;
-           EClock 5 2 1; EProc 2 0%nat 5; EClockEnd EndQuit 2 1; EEnd (Returned false) 2 1]) ] |}.
+           ELoad 1 2; EEv 2 (VLoad 1 2); EProc 1 1%nat 0; ECoro 1 0%nat;
+           EClock 5 2 1; EProc 2 0%nat 5; ECoro 2 0%nat; EClockEnd EndQuit 2 1; EEnd (Returned false) 2 1]) ] |}.
 Example C14_direct_switch_holds :
   wf_b direct_case = true /\ accepts direct_case = true /\ holds14_b direct_case = true.
 Proof. vm_compute. auto. Qed.
